@@ -223,11 +223,56 @@ theorem toAbsolute_length (dir p r : List Str) (hd : plainPath dir = true) (h : 
   · have := normGo_length [] _ r h; simp at this; omega
   · have := normGo_length [] _ r h; simp at this; omega
 
+/-! ### idempotence at segment and query level -/
+
+theorem seg_idem (dir : List Str) (sel : Option Str) (hd : plainPath dir = true) (s s' : Seg)
+    (h : s.toAbsolute dir sel = some s') : s'.toAbsolute dir sel = some s' := by
+  cases s with
+  | transform hh a f =>
+    simp only [Seg.toAbsolute, Option.some.injEq] at h; subst h; rfl
+  | resource hh names =>
+    obtain ⟨r, rfl, hr⟩ := seg_selected dir sel hh names s' h
+    rcases hr with rfl | hr
+    · exact h
+    · simp only [Seg.toAbsolute]
+      split
+      · rw [toAbsolute_idem dir names r hd hr]; rfl
+      · rfl
+
+theorem mapOpt_idem {α} (f : α → Option α) (hf : ∀ a b, f a = some b → f b = some b) (l r : List α)
+    (h : mapOpt f l = some r) : mapOpt f r = some r := by
+  induction l generalizing r with
+  | nil => simp [mapOpt] at h; subst h; rfl
+  | cons a as ih =>
+    simp only [mapOpt] at h
+    split at h
+    · rename_i b bs hb hbs
+      cases h
+      simp [mapOpt, hf a b hb, ih bs hbs]
+    · cases h
+
+/-- **`Query.to_absolute` is idempotent**: resolving a resolved query again (same directory, same
+segment selection) returns it unchanged -/
+theorem query_idem (dir : List Str) (sel : Option Str) (hd : plainPath dir = true) (q q' : Query)
+    (h : q.toAbsolute dir sel = some q') : q'.toAbsolute dir sel = some q' := by
+  cases q with
+  | mk segs abs =>
+    simp only [Query.toAbsolute] at h
+    cases hm : mapOpt (Seg.toAbsolute dir sel) segs with
+    | none => simp [hm] at h
+    | some r =>
+      simp [hm] at h; subst h
+      simp [Query.toAbsolute, mapOpt_idem _ (fun a b => seg_idem dir sel hd a b) segs r hm]
+
 /-! non-vacuity / concrete behaviour -/
 example : toAbs [['d']] [['a'], dotdot, dot, ['b']] = some [['b']] := by decide
 example : toAbs [['d']] [dot, dotdot, dotdot] = none := by decide
 example : toAbs [['x'], ['y']] [dot, dotdot, ['c']] = some [['x'], ['c']] := by decide
 example : plainPath [['x'], ['y']] = true := by decide
+-- a query the idempotence theorem applies to (one selected resource segment, one transform segment)
+example : (Query.mk [.resource none [dot, dotdot, ['c']], .transform none [] none] false).toAbsolute [['x'], ['y']] none
+    = some (Query.mk [.resource none [['x'], ['c']], .transform none [] none] false) := by
+  simp [Query.toAbsolute, mapOpt, Seg.toAbsolute, segSelected, toAbs, toAbsGo, dot, dotdot]
 -- the hypotheses of `toAbsolute_compose` are satisfiable, and both sides are a non-trivial path
 example : startsRelative [dotdot, ['c']] = true ∧ startsRelative [dot, ['e'], dotdot, ['f']] = true := by decide
 example : (toAbs [['x'], ['y']] [dotdot, ['c']]).bind (fun d => toAbs d [dot, ['e'], dotdot, ['f']])
@@ -237,4 +282,4 @@ example : startsRelative [['a'], dotdot, ['b']] = false := by decide
 
 end Liquer.C19
 
--- OBLIGATIONS: Liquer.C19.toAbsolute_eq_posix Liquer.C19.toAbsolute_idem Liquer.C19.toAbsolute_rejects_iff Liquer.C19.seg_frame_transform Liquer.C19.seg_frame_other_name Liquer.C19.seg_selected Liquer.C19.query_frame Liquer.C19.toAbsolute_result_plain Liquer.C19.toAbsolute_ignores_dir Liquer.C19.toAbsolute_compose Liquer.C19.toAbsolute_length
+-- OBLIGATIONS: Liquer.C19.toAbsolute_eq_posix Liquer.C19.toAbsolute_idem Liquer.C19.toAbsolute_rejects_iff Liquer.C19.seg_frame_transform Liquer.C19.seg_frame_other_name Liquer.C19.seg_selected Liquer.C19.query_frame Liquer.C19.toAbsolute_result_plain Liquer.C19.toAbsolute_ignores_dir Liquer.C19.toAbsolute_compose Liquer.C19.toAbsolute_length Liquer.C19.seg_idem Liquer.C19.query_idem
